@@ -106,7 +106,7 @@ claim(
 claim(
     "C16",
     "other",
-    "Decides the reduction formulas by interpreting every detector update() twice on arrays of free symbolic entries (fields, cell-volume and face-area weights) for several concrete region shapes incl. size-one axes, resolved and reduced, and comparing the reduced record as a polynomial identity with the weighted mean / sum formed from the resolved record: field and phasor records = sum(v*w)/sum(w) per frequency and component; energy = sum(density*w) with density = 1/2 sum_c(|E_c|^2/inv_eps_c+|H_c|^2/inv_mu_c); Poynting record = E x conj(H), reduced = sum(S*area), '-' negates, single component = propagation component; closed surface = sum over active axes of (+last - first face) of S_a*area_a, 'inward' negates; inverse phasor detectors subtract what forward ones add; propagation-axis decision tables (fixed axis incl. 0 / unique size-one axis / error); face-area weight helper on resolved and uniform grids; every update override in the phasor family (closed surface, field projection) subtracts when inverse exactly the term it adds when forward; the closed-surface phasor detector's net flux sums, over its active axes (every subset), max face minus min face of S_a times the face-area weights of that same axis. Holds for all inputs of the interpreted shapes; summation order / round-off not decided.",
+    "Decides the reduction formulas by interpreting every detector update() twice on arrays of free symbolic entries (fields, cell-volume and face-area weights) for several concrete region shapes incl. size-one axes, resolved and reduced, and comparing the reduced record as a polynomial identity with the weighted mean / sum formed from the resolved record: field and phasor records = sum(v*w)/sum(w) per frequency and component; energy = sum(density*w) with density = 1/2 sum_c(|E_c|^2/inv_eps_c+|H_c|^2/inv_mu_c); Poynting record = E x conj(H), reduced = sum(S*area), '-' negates, single component = propagation component; closed surface = sum over active axes of (+last - first face) of S_a*area_a, 'inward' negates; inverse phasor detectors subtract what forward ones add; propagation-axis decision tables (fixed axis incl. 0 / unique size-one axis / error); face-area weight helper on resolved and uniform grids; every update override in the phasor family (closed surface, field projection) subtracts when inverse exactly the term it adds when forward; the closed-surface phasor detector's net flux sums, over its active axes (every subset), max face minus min face of S_a times the face-area weights of that same axis. With all components kept, place_on_grid of the two plane Poynting detectors builds a (3, *region) weight array whose entry a is the face-area array of axis a broadcast over the region (R16.7: the all-component record exists and weights component a like the single-component record of axis a). Holds for all inputs of the interpreted shapes; summation order / round-off not decided.",
     TB + "; sa/ndarr.py model of sum/mean/take/reshape/cross/stack on concrete-shape arrays; size-uniformity of those reductions",
     "abstract interpretation on concrete-shape arrays of free symbols; polynomial identity between reduced and resolved records; finite decision tables",
     "DESIGN.md §5 C16",
